@@ -730,6 +730,14 @@ class SqliteGitShaMap(GitShaMap):
         """
         self.db.commit()
 
+    def abort_write_group(self):
+        """Abort any pending SQLite database changes.
+
+        Rolls back the current SQLite transaction, discarding everything
+        added since the last commit.
+        """
+        self.db.rollback()
+
     def lookup_blob_id(self, fileid, revision):
         """Retrieve a Git blob SHA by file ID and revision from SQLite.
 
